@@ -17,6 +17,9 @@ CHECKS = {
  'C20': dict(cat='model_checking', engine='cbmc', technique='CBMC on orcopcode.c/orcrule.c/orctarget.c/orcexecutor.c with symbolic opcode names, rule-set flags and query flags; configurations (set counts, majors, fill level) enumerated',
              text='Lookup order (first match in registration order, built-ins unchanged), owning-set resolution, rule slot frame, newest-satisfied-rule-set precedence, and emulation dispatch to the application function with the program operand pointers, for all names/flags inside the bounds.',
              note='Names: first byte fixed per configuration, <=3 further arbitrary bytes; <=3 extra sets; capacity overflow of rule_sets[]/targets[] is outside the property.', ref='DESIGN.md#c20'),
+ 'C14': dict(cat='model_checking', engine='cbmc', technique='CBMC unit-step harnesses on orcparse.c/orcutils.c/orcprogram.c: each parser step (line split, tokenizer, every directive handler via the dispatcher, opcode lines, _strtoll, literal classification, error vector) from a symbolic parser state; induction over lines',
+             text='Memory safety, progress (read position strictly advances), bounded token/variable/instruction tables and error-record post-conditions for every line step from any parser state within the bounds; whole files follow by induction over lines.',
+             note='strtod/strtol/vasprintf stubbed by their contracts; 4-entry opcode table with the real operand shapes; fill levels of tables enumerated (cap-1, cap), content symbolic; tokens <=3 bytes.', ref='DESIGN.md#c14'),
 }
 
 NOT_APPLICABLE = {
